@@ -1,5 +1,6 @@
 #!/bin/sh
-# One-time offline build of the framework (MANIFEST.setup_cmd): Go tools, T1 tables, Lean proofs, driver.
+# One-time offline build of the framework (MANIFEST.setup_cmd): Go tools, T1/T2 generated Lean files,
+# Lean proofs of every claimed property, the driver, the harnesses of every claimed property.
 set -e
 cd "$(dirname "$0")"
 export GOFLAGS=-mod=mod GOPROXY=off
@@ -7,5 +8,29 @@ unset GOSUMDB GOTOOLCHAIN || true
 mkdir -p go/bin evidence replays
 cp /repo/go.sum go/go.sum
 (cd go && go build -tags verif -o bin/extract ./cmd/extract && ./bin/extract -lean ../lean)
-(cd go && for d in cmd/c*; do go build -tags verif -o bin/$(basename $d) ./$d; done)
-(cd lean && lake build)
+TARGETS=$(python3 - <<'PY'
+import json,glob
+t=set()
+for f in glob.glob('props/C[0-9][0-9].json'):
+    c=json.load(open(f))
+    if isinstance(c,dict) and c.get('claimed') and 'lean_targets' in c:
+        t.update(c['lean_targets'])
+        for a in c.get('audit',[]): t.add(a[:-5].replace('/','.'))
+print(' '.join(sorted(t)))
+PY
+)
+HARNESSES=$(python3 - <<'PY'
+import json,glob
+t=set()
+for f in glob.glob('props/C[0-9][0-9].json'):
+    c=json.load(open(f))
+    if isinstance(c,dict) and c.get('claimed') and 'harness' in c:
+        hs=c['harness']
+        if isinstance(hs,str): hs=[{'cmd':hs}]
+        for h in hs: t.add(h['cmd'])
+print(' '.join(sorted(t)))
+PY
+)
+(cd lean && lake build driver $TARGETS)
+(cd go && for h in $HARNESSES; do go build -tags verif -o bin/$h ./cmd/$h; done)
+echo "setup ok: lean targets [$TARGETS] harnesses [$HARNESSES]"
